@@ -60,12 +60,72 @@ def draw_cfg(rng, allow_procs):
     bs = rng.choice([None, None, 1, 3])
     if bs is not None:
         ckw["batch_size"] = bs
-    opt = rng.random() < 0.3
+    opt = rng.random() < 0.45
     if r < 0.08:
         return {"executor": "single-threaded", "optimize": opt}
     if r < 0.16 and allow_procs:
         return {"executor": "processes", "optimize": opt, "executor_opts": {"max_workers": rng.choice([2, 4])}, "compute_kw": ckw}
     return {"executor": "threads", "optimize": opt, "executor_opts": {"max_workers": rng.choice([1, 2, 4, 4, 16])}, "compute_kw": ckw}
+
+
+ORDER_FINDINGS = []
+ORDER_STATS = {"generation_lists_checked": 0, "node_orders_checked": 0}
+_order_hooked = False
+
+
+def install_order_contract():
+    """Invariant at the scheduler's own hook: the node order / generations handed to the executors
+    must respect every dependency of the DAG (an operation appears strictly after every operation
+    producing one of its inputs). Rebinds the names the executors imported."""
+    global _order_hooked
+    if _order_hooked:
+        return
+    import networkx as nx
+
+    import cubed.runtime.asyncio as rasync
+    import cubed.runtime.executors.local as rlocal
+    import cubed.runtime.pipeline as rpipe
+
+    def op_ancestors(dag, n, live):
+        return {a for a in nx.ancestors(dag, n) if a in live}
+
+    def wrap_generations(orig):
+        def visit_node_generations(dag):
+            gens = list(orig(dag))
+            ORDER_STATS["generation_lists_checked"] += 1
+            pos = {}
+            for g, gen in enumerate(gens):
+                for name, _ in gen:
+                    pos[name] = g
+            for name, g in pos.items():
+                for a in op_ancestors(dag, name, pos):
+                    if pos[a] >= g:
+                        ORDER_FINDINGS.append(f"operation {name} is in generation {g} but its producer {a} is in generation {pos[a]}")
+            return iter(gens)
+
+        return visit_node_generations
+
+    def wrap_nodes(orig):
+        def visit_nodes(dag):
+            order = list(orig(dag))
+            ORDER_STATS["node_orders_checked"] += 1
+            pos = {name: k for k, (name, _) in enumerate(order)}
+            for name, k in pos.items():
+                for a in op_ancestors(dag, name, pos):
+                    if pos[a] >= k:
+                        ORDER_FINDINGS.append(f"operation {name} is visited at position {k} but its producer {a} at {pos[a]}")
+            return iter(order)
+
+        return visit_nodes
+
+    wg = wrap_generations(rpipe.visit_node_generations)
+    wn = wrap_nodes(rpipe.visit_nodes)
+    for mod in (rasync, rlocal, rpipe):
+        if hasattr(mod, "visit_node_generations"):
+            mod.visit_node_generations = wg
+        if hasattr(mod, "visit_nodes"):
+            mod.visit_nodes = wn
+    _order_hooked = True
 
 
 def analyse(events, res, facts):
@@ -145,6 +205,8 @@ def one_run(recipe, cfg, workdir, seed, res):
     import cubed
 
     storetrace.install()
+    install_order_contract()
+    del ORDER_FINDINGS[:]
     os.makedirs(workdir, exist_ok=True)
     spec = runner.make_spec(workdir)
     env = gen.BuildEnv(spec, workdir)
@@ -193,7 +255,7 @@ def one_run(recipe, cfg, workdir, seed, res):
 
 EXTRA = ("reads_checked", "writer_own_reads", "runs_with_consumer_reads", "runs_with_overlap", "worker_process_events",
          "declined", "store_events")
-GEN_KW = {"allow_zero": False, "weights": {"binary": 16, "multi": 6, "rechunk": 7, "reduce": 12, "concat": 7, "linalg": 5}}
+GEN_KW = {"allow_zero": False, "weights": {"binary": 16, "multi": 6, "rechunk": 7, "reduce": 12, "concat": 7, "linalg": 5, "combo": 14}}
 
 
 def run_shard(spec, workdir):
@@ -235,6 +297,8 @@ def run_shard(spec, workdir):
             _rc.bump(res["hist"]["config"], f"{cfg['executor']}/{'opt' if cfg['optimize'] else 'noopt'}/par={bool(cfg.get('compute_kw', {}).get('compute_arrays_in_parallel'))}")
             facts = {"config": cfg, "latency_seed": seed, "ops": gen.recipe_ops(recipe), "run_exception": exc}
             viols, overlap, order, consumed = analyse(events, res, facts)
+            for f in ORDER_FINDINGS[:2]:
+                viols.append({"kind": "schedule-order-violates-dependency", "msg": f, "facts": dict(facts)})
             mxo = max(mxo, overlap)
             if overlap >= 2:
                 res["counters"]["runs_with_overlap"] += 1
@@ -252,6 +316,8 @@ def run_shard(spec, workdir):
         if k < 1 and spec.get("shard", 0) == 0:
             res["samples"].append({"recipe": recipe, "config": cfg})
     res["maxes"]["max_overlapping_tasks"] = mxo
+    res["counters"]["generation_lists_checked"] = ORDER_STATS["generation_lists_checked"]
+    res["counters"]["node_orders_checked"] = ORDER_STATS["node_orders_checked"]
     return res
 
 
@@ -282,6 +348,7 @@ def finalize(tier, merged):
             ("runs in which >= 2 tasks overlapped in time", c.get("runs_with_overlap", 0), 250 if tier == "quick" else 5000),
             ("distinct interleavings observed", len(merged["sets"].get("interleavings", [])), 300 if tier == "quick" else 6000),
             ("store events observed inside worker processes", c.get("worker_process_events", 0), 100 if tier == "quick" else 3000),
+            ("schedules (generation lists + node orders) checked against the DAG's dependencies", c.get("generation_lists_checked", 0) + c.get("node_orders_checked", 0), 500 if tier == "quick" else 10000),
         ],
         "assumptions": ASSUMPTIONS,
     }
